@@ -667,6 +667,12 @@ func neverNilErr(v ssa.Value, depth int) bool {
 	switch x := v.(type) {
 	case *ssa.MakeInterface:
 		return true
+	case *ssa.UnOp:
+		// a package-level sentinel: var errX = errors.New(…), never reassigned to a possibly nil value
+		if g, ok := x.X.(*ssa.Global); ok && x.Op == token.MUL {
+			return sentinelNeverNil(g)
+		}
+		return false
 	case *ssa.Call:
 		f := calleeFunc(x.Common())
 		if f == nil {
@@ -1121,4 +1127,60 @@ func constLit(l Lit, ph *ssa.Phi, e ssa.Value) (feasible, decided bool) {
 		}
 	}
 	return false, false
+}
+
+var sentinelMemo = map[*ssa.Global]bool{}
+
+// sentinelNeverNil: every store to package-level variable g (its initialiser included) stores a
+// never-nil error.
+func sentinelNeverNil(g *ssa.Global) bool {
+	if v, ok := sentinelMemo[g]; ok {
+		return v
+	}
+	sentinelMemo[g] = false
+	if g.Pkg == nil || gProg == nil {
+		return false
+	}
+	n, ok := 0, true
+	check := func(fn *ssa.Function) {
+		for _, b := range fn.Blocks {
+			for _, in := range b.Instrs {
+				if st, isSt := in.(*ssa.Store); isSt && st.Addr == ssa.Value(g) {
+					n++
+					if !neverNilErr(st.Val, 2) {
+						ok = false
+					}
+				}
+			}
+		}
+	}
+	for _, m := range g.Pkg.Members {
+		if fn, isFn := m.(*ssa.Function); isFn {
+			for _, f := range withAnon(fn) {
+				check(f)
+			}
+		}
+	}
+	for _, fn := range gProg.Mod {
+		if fn.Pkg == g.Pkg && fn.Signature.Recv() != nil {
+			check(fn)
+		}
+	}
+	// the address must not escape (no other referrers than loads and these stores) — globals have no
+	// Referrers in go/ssa; an exported sentinel could be reassigned by another package: only
+	// unexported ones, or exported ones never stored to outside their package, are trusted
+	for _, fn := range gProg.Mod {
+		if fn.Pkg != g.Pkg {
+			for _, b := range fn.Blocks {
+				for _, in := range b.Instrs {
+					if st, isSt := in.(*ssa.Store); isSt && st.Addr == ssa.Value(g) {
+						ok = false
+					}
+				}
+			}
+		}
+	}
+	res := ok && n > 0
+	sentinelMemo[g] = res
+	return res
 }
